@@ -362,6 +362,7 @@ class LiveTail(Family):
     transport at once, to a client that reads 32 KiB and then pauses for 31 s of server time: close() has been called, the
     rest is in the transport's buffer, and it must still arrive (asyncio's default ssl_shutdown_timeout of 30 s would tear
     the connection down first -- the response would be neither whole nor absent).  Delegates to C06's live family."""
+    realtime = True     # runs on the wall clock (sockets, threads): a failure is re-run once before it counts (core.run_family)
     name = "livetail"
     parallel = False
     quick_n = 2
